@@ -336,7 +336,9 @@ def sample_object_to_dict(data, elem, skip=''):
             for meta_key, meta_val in elem.__dict__[key].items():
                 data[meta_key] = meta_val
             continue
-        data[key] = val
+        # copy dictionaries (e.g. `samples`) because the conversion to python types is
+        # done in place and must not alter the sample object itself
+        data[key] = val.copy() if isinstance(val, dict) else val
 
 
 def numpy_to_python_type(data):
